@@ -154,3 +154,33 @@ func VerifHarness_C05_PairsMonitored() { c05History(2, true, true) }
 // search, one arbitrary operation, search
 func VerifHarness_C05_Hist3() { c05History(3, false, true) }
 func VerifHarness_C05_Hist4() { c05History(4, false, true) }
+
+// targeted 5-step history: an entry must not outlive a replacement made while the cache is off
+func VerifHarness_C05_OffOn() {
+	db := c04DB(false)
+	cdb := NewCachedDatabase(db)
+	q := c05Queries[verifIntRange("query", 0, 2)]
+	o := SearchOptions{Limit: 3}
+	c05Compare(cdb.Database, cdb.SearchWithOptionsAndCache(q, o), q, o, "before")
+	switchOff := verifBool("switchOff")
+	if switchOff {
+		cdb.EnableCache(false)
+	}
+	switch verifIntRange("change", 0, 2) {
+	case 0:
+		cdb.UpdateDatabase(c01DB(3).Commands)
+	case 1:
+		cdb.InvalidateCache()
+	case 2:
+	}
+	if switchOff && verifBool("searchWhileOff") {
+		c05Compare(cdb.Database, cdb.SearchWithOptionsAndCache(q, o), q, o, "while off")
+	}
+	cdb.EnableCache(true)
+	got := cdb.SearchWithOptionsAndCache(q, o)
+	c05Compare(cdb.Database, got, q, o, "after")
+	// C01 on the cached path: results are entries of the database searched now
+	c01Shape(cdb.Database, got, o.Limit, "cached answer")
+	verifReach("searched")
+	verifReach("done")
+}
